@@ -412,6 +412,19 @@ def repeat_trees(rng, n):
         if incs:
             files['inc1/unrelated.asm'] = '    addi x9, x0, 9\n'
         out.append(Tree(files, 'proj/main.asm', incs, ['proj', '.', 'decoy'], ['repeat', 'repeat-%d' % shape], dirs=['decoy'] + incs))
+    # MANY includes: 20 include lines in one flat file; 9 in the main file whose 8th file holds 9 of its own (no depth, no cycle:
+    # a counter of include lines met so far is not a nesting depth)
+    files = {'proj/main.asm': ''.join('include part{}.asm\n'.format(i) for i in range(20)) + 'end_:\n'}
+    for i in range(20):
+        files['proj/part{}.asm'.format(i)] = '    addi x{}, x0, {}\n'.format(1 + i % 30, i)
+    out.append(Tree(files, 'proj/main.asm', [], ['proj', '.'], ['repeat', 'many-flat'], dirs=[]))
+    files = {'proj/main.asm': ''.join('include m{}.asm\n'.format(i) for i in range(9)) + 'end_:\n'}
+    for i in range(9):
+        files['proj/m{}.asm'.format(i)] = '    addi x{}, x0, {}\n'.format(1 + i, i)
+    files['proj/m7.asm'] = ''.join('include sub/n{}.asm\n'.format(i) for i in range(9))
+    for i in range(9):
+        files['proj/sub/n{}.asm'.format(i)] = '    addi x{}, x0, {}\n'.format(10 + i, 100 + i)
+    out.append(Tree(files, 'proj/main.asm', [], ['proj', '.'], ['repeat', 'many-nested'], dirs=[]))
     return out
 
 
